@@ -47,7 +47,11 @@ func (p *PKCS7PaddingReader) Read(buf []byte) (int, error) {
 	var err error
 	if !p.eof {
 		// 读取文件
-		n, err = p.fIn.Read(buf)
+		// a single Read may return fewer bytes than requested without being at EOF
+		n, err = io.ReadFull(p.fIn, buf)
+		if errors.Is(err, io.ErrUnexpectedEOF) {
+			err = io.EOF
+		}
 		if err != nil && !errors.Is(err, io.EOF) {
 			// 错误返回
 			return 0, err
